@@ -87,6 +87,11 @@ SPIF_TYPE(strclass) SPIF_STRCLASS_VAR(str) = &s_class;
 
 static const size_t buff_inc = 4096;
 
+/* Read-only text of a string object: an empty string has no buffer (s == NULL). */
+#define STR_TEXT(obj)  ((const spif_charptr_t) ((SPIF_STR_ISNULL(obj) || !((obj)->s)) \
+                                                 ? ((spif_charptr_t) "") \
+                                                 : ((obj)->s)))
+
 spif_str_t
 spif_str_new(void)
 {
@@ -424,7 +429,7 @@ spif_str_casecmp(spif_str_t self, spif_str_t other)
     int c;
 
     SPIF_OBJ_COMP_CHECK_NULL(self, other);
-    c = strcasecmp((char *) SPIF_STR_STR(self), (char *) SPIF_STR_STR(other));
+    c = strcasecmp((char *) STR_TEXT(self), (char *) STR_TEXT(other));
     return SPIF_CMP_FROM_INT(c);
 }
 
@@ -434,7 +439,7 @@ spif_str_casecmp_with_ptr(spif_str_t self, spif_charptr_t other)
     int c;
 
     SPIF_OBJ_COMP_CHECK_NULL(self, other);
-    c = strcasecmp((char *) SPIF_STR_STR(self), (char *) other);
+    c = strcasecmp((char *) STR_TEXT(self), (char *) other);
     return SPIF_CMP_FROM_INT(c);
 }
 
@@ -456,7 +461,7 @@ spif_str_cmp(spif_str_t self, spif_str_t other)
     int c;
 
     SPIF_OBJ_COMP_CHECK_NULL(self, other);
-    c = strcmp((char *) SPIF_STR_STR(self), (char *) SPIF_STR_STR(other));
+    c = strcmp((char *) STR_TEXT(self), (char *) STR_TEXT(other));
     return SPIF_CMP_FROM_INT(c);
 }
 
@@ -466,7 +471,7 @@ spif_str_cmp_with_ptr(spif_str_t self, spif_charptr_t other)
     int c;
 
     SPIF_OBJ_COMP_CHECK_NULL(self, other);
-    c = strcmp((char *) SPIF_STR_STR(self), (char *) other);
+    c = strcmp((char *) STR_TEXT(self), (char *) other);
     return SPIF_CMP_FROM_INT(c);
 }
 
@@ -492,10 +497,10 @@ spif_str_find(spif_str_t self, spif_str_t other)
 
     ASSERT_RVAL(!SPIF_STR_ISNULL(self), ((spif_stridx_t) -1));
     REQUIRE_RVAL(!SPIF_STR_ISNULL(other), ((spif_stridx_t) -1));
-    tmp = strstr((const char *) SPIF_STR_STR(self),
-                 (const char *) SPIF_STR_STR(other));
+    tmp = strstr((const char *) STR_TEXT(self),
+                 (const char *) STR_TEXT(other));
     if (tmp) {
-        return (spif_stridx_t) ((spif_long_t) tmp - (spif_long_t) (SPIF_STR_STR(self)));
+        return (spif_stridx_t) ((spif_long_t) tmp - (spif_long_t) (STR_TEXT(self)));
     } else {
         return (spif_stridx_t) (self->len);
     }
@@ -508,10 +513,10 @@ spif_str_find_from_ptr(spif_str_t self, spif_charptr_t other)
 
     ASSERT_RVAL(!SPIF_STR_ISNULL(self), ((spif_stridx_t) -1));
     REQUIRE_RVAL((other != (spif_charptr_t) NULL), ((spif_stridx_t) -1));
-    tmp = strstr((const char *) SPIF_STR_STR(self),
+    tmp = strstr((const char *) STR_TEXT(self),
                  (const char *) other);
     if (tmp) {
-        return (spif_stridx_t) ((spif_long_t) tmp - (spif_long_t) (SPIF_STR_STR(self)));
+        return (spif_stridx_t) ((spif_long_t) tmp - (spif_long_t) (STR_TEXT(self)));
     } else {
         return (spif_stridx_t) (self->len);
     }
@@ -523,9 +528,9 @@ spif_str_index(spif_str_t self, spif_char_t c)
     char *tmp;
 
     ASSERT_RVAL(!SPIF_STR_ISNULL(self), ((spif_stridx_t) -1));
-    tmp = index((const char *) SPIF_STR_STR(self), c);
+    tmp = index((const char *) STR_TEXT(self), c);
     if (tmp) {
-        return (spif_stridx_t) ((spif_long_t) tmp - (spif_long_t) (SPIF_STR_STR(self)));
+        return (spif_stridx_t) ((spif_long_t) tmp - (spif_long_t) (STR_TEXT(self)));
     } else {
         return (spif_stridx_t) (self->len);
     }
@@ -537,7 +542,7 @@ spif_str_ncasecmp(spif_str_t self, spif_str_t other, spif_stridx_t cnt)
     int c;
 
     SPIF_OBJ_COMP_CHECK_NULL(self, other);
-    c = strncasecmp((char *) SPIF_STR_STR(self), (char *) SPIF_STR_STR(other), cnt);
+    c = strncasecmp((char *) STR_TEXT(self), (char *) STR_TEXT(other), cnt);
     return SPIF_CMP_FROM_INT(c);
 }
 
@@ -547,7 +552,7 @@ spif_str_ncasecmp_with_ptr(spif_str_t self, spif_charptr_t other, spif_stridx_t 
     int c;
 
     SPIF_OBJ_COMP_CHECK_NULL(self, other);
-    c = strncasecmp((char *) SPIF_STR_STR(self), (char *) other, cnt);
+    c = strncasecmp((char *) STR_TEXT(self), (char *) other, cnt);
     return SPIF_CMP_FROM_INT(c);
 }
 
@@ -557,7 +562,7 @@ spif_str_ncmp(spif_str_t self, spif_str_t other, spif_stridx_t cnt)
     int c;
 
     SPIF_OBJ_COMP_CHECK_NULL(self, other);
-    c = strncmp((char *) SPIF_STR_STR(self), (char *) SPIF_STR_STR(other), cnt);
+    c = strncmp((char *) STR_TEXT(self), (char *) STR_TEXT(other), cnt);
     return SPIF_CMP_FROM_INT(c);
 }
 
@@ -567,7 +572,7 @@ spif_str_ncmp_with_ptr(spif_str_t self, spif_charptr_t other, spif_stridx_t cnt)
     int c;
 
     SPIF_OBJ_COMP_CHECK_NULL(self, other);
-    c = strncmp((char *) SPIF_STR_STR(self), (char *) other, cnt);
+    c = strncmp((char *) STR_TEXT(self), (char *) other, cnt);
     return SPIF_CMP_FROM_INT(c);
 }
 
@@ -634,9 +639,9 @@ spif_str_rindex(spif_str_t self, spif_char_t c)
     char *tmp;
 
     ASSERT_RVAL(!SPIF_STR_ISNULL(self), ((spif_stridx_t) -1));
-    tmp = rindex((const char *) SPIF_STR_STR(self), c);
+    tmp = rindex((const char *) STR_TEXT(self), c);
     if (tmp) {
-        return (spif_stridx_t) ((spif_long_t) tmp - (spif_long_t) (SPIF_STR_STR(self)));
+        return (spif_stridx_t) ((spif_long_t) tmp - (spif_long_t) (STR_TEXT(self)));
     } else {
         return (spif_stridx_t) (self->len);
     }
@@ -805,14 +810,14 @@ double
 spif_str_to_float(spif_str_t self)
 {
     ASSERT_RVAL(!SPIF_STR_ISNULL(self), (double) NAN);
-    return (double) (strtod((const char *)SPIF_STR_STR(self), (char **) NULL));
+    return (double) (strtod((const char *)STR_TEXT(self), (char **) NULL));
 }
 
 size_t
 spif_str_to_num(spif_str_t self, int base)
 {
     ASSERT_RVAL(!SPIF_STR_ISNULL(self), ((size_t) -1));
-    return (size_t) (strtoul((const char *) SPIF_STR_STR(self), (char **) NULL, base));
+    return (size_t) (strtoul((const char *) STR_TEXT(self), (char **) NULL, base));
 }
 
 spif_bool_t
